@@ -639,15 +639,15 @@ theorem twoWay_right (S : Schema) : ∀ (O : List Node) (q : Nat) (E R : List No
 /-! ### the right join of `threeWay` / `flatTail` -/
 
 /-- what `rightJoin` needs to know about the slice content `M` and the right split -/
-def LastOK (S : Schema) (M : List Node) (b : Nat) : RSplit → Prop
+def RJoinOK (S : Schema) (M : List Node) (b : Nat) : RSplit → Prop
   | .flat _ => b = 0
   | .deep cR innerT _ => ∃ ty a m kidsR kidsE, cR = .elem ty a m kidsR ∧
       M.getLast? = some (.elem ty a m kidsE) ∧ fcutLoop kidsR 0 innerT = .ok kidsE ∧
       innerT ≤ fsize kidsR ∧ b = 1 + depthAt kidsR innerT ∧
       S.validContent ty kidsR = true ∧ S.checkKids kidsR = true ∧ fnorm kidsR = true
 
-theorem lastOK_cons {S : Schema} {M : List Node} {b : Nat} {rs : RSplit} (x : Node)
-    (h : LastOK S M b rs) : LastOK S (x :: M) b rs := by
+theorem rjoinOK_cons {S : Schema} {M : List Node} {b : Nat} {rs : RSplit} (x : Node)
+    (h : RJoinOK S M b rs) : RJoinOK S (x :: M) b rs := by
   cases rs with
   | flat r => exact h
   | deep c i r =>
@@ -657,17 +657,17 @@ theorem lastOK_cons {S : Schema} {M : List Node} {b : Nat} {rs : RSplit} (x : No
     | nil => simp at h2
     | cons y ys => rw [List.getLast?_cons_cons]; exact h2
 
-theorem lastOK_ne_nil {S : Schema} {M : List Node} {b : Nat} {c : Node} {i : Nat} {r : List Node}
-    (h : LastOK S M b (.deep c i r)) : M ≠ [] ∧ b ≠ 0 := by
+theorem rjoinOK_ne_nil {S : Schema} {M : List Node} {b : Nat} {c : Node} {i : Nat} {r : List Node}
+    (h : RJoinOK S M b (.deep c i r)) : M ≠ [] ∧ b ≠ 0 := by
   obtain ⟨ty, a, m, kR, kE, _, h2, _, _, hb, _⟩ := h
   refine ⟨?_, by omega⟩
   intro h0; subst h0; simp at h2
 
-theorem rightJoin_ok {S : Schema} {M : List Node} {b : Nat} {rs : RSplit} (h : LastOK S M b rs) :
+theorem rightJoin_ok {S : Schema} {M : List Node} {b : Nat} {rs : RSplit} (h : RJoinOK S M b rs) :
     ∃ rj, rightJoin S M b rs = .ok rj := by
   cases rs with
   | flat r =>
-    simp only [LastOK] at h; subst h
+    simp only [RJoinOK] at h; subst h
     exact ⟨[], by simp [rightJoin]⟩
   | deep c i r =>
     obtain ⟨ty, a, m, kR, kE, rfl, hl, hcut, hi, hb, hvc, hvk, hnk⟩ := h
@@ -684,21 +684,21 @@ theorem rightJoin_ok {S : Schema} {M : List Node} {b : Nat} {rs : RSplit} (h : L
     exact ⟨_, rfl⟩
 
 theorem flatTail_ok {S : Schema} {M : List Node} {b : Nat} {R : List Node} {t : Nat} {rs : RSplit}
-    (hs : splitRight R t = some rs) (h : LastOK S M b rs) : ∃ X, flatTail S M 0 b R t = .ok X := by
+    (hs : splitRight R t = some rs) (h : RJoinOK S M b rs) : ∃ X, flatTail S M 0 b R t = .ok X := by
   obtain ⟨rj, hrj⟩ := rightJoin_ok h
   unfold flatTail
   simp only [hs, hrj]
   rw [if_neg (by simp)]
   exact ⟨_, rfl⟩
 
-theorem lastOK_of_cut0 (S : Schema) : ∀ (L : List Node) (t : Nat) (M : List Node) (rs : RSplit),
+theorem rjoinOK_of_cut0 (S : Schema) : ∀ (L : List Node) (t : Nat) (M : List Node) (rs : RSplit),
     t ≤ fsize L → fcutLoop L 0 t = .ok M → splitRight L t = some rs →
-    S.checkKids L = true → fnorm L = true → LastOK S M (depthAt L t) rs
+    S.checkKids L = true → fnorm L = true → RJoinOK S M (depthAt L t) rs
   | [], t, M, rs, ht, _, hs, _, _ => by
     have : t = 0 := by simpa using ht
     subst this
     simp at hs; subst hs
-    simp [LastOK]
+    simp [RJoinOK]
   | n :: ns, t, M, rs, ht, h, hs, hv, hn => by
     obtain ⟨hnn, hnns⟩ := fnorm_cons hn
     have hpos := Node.size_pos_of_norm n hnn
@@ -706,7 +706,7 @@ theorem lastOK_of_cut0 (S : Schema) : ∀ (L : List Node) (t : Nat) (M : List No
     by_cases ht0 : t = 0
     · subst ht0
       simp at hs; subst hs
-      simp [LastOK]
+      simp [RJoinOK]
     by_cases hle : n.size ≤ t
     · obtain ⟨rest, hr, hM⟩ := fcutLoop_whole_inv h hpos hle
       subst hM
@@ -714,14 +714,14 @@ theorem lastOK_of_cut0 (S : Schema) : ∀ (L : List Node) (t : Nat) (M : List No
       have hv' : S.checkKids ns = true := by
         simp only [checkKids_cons, Bool.and_eq_true] at hv; exact hv.2
       rw [depthAt_skip n ns t hle]
-      exact lastOK_cons n (lastOK_of_cut0 S ns (t - n.size) rest rs (by omega) hr hs hv' hnns)
+      exact rjoinOK_cons n (rjoinOK_of_cut0 S ns (t - n.size) rest rs (by omega) hr hs hv' hnns)
     cases n with
     | text s m =>
       rw [splitRight_cons, if_neg ht0, if_neg hle] at hs
       simp only at hs
       split at hs
       · simp at hs; subst hs
-        simp only [LastOK]
+        simp only [RJoinOK]
         exact depthAt_nonelem_cons _ ns t (by omega) (by simp)
       · simp at hs
     | leaf ty a m => simp at hle; omega
@@ -777,7 +777,7 @@ theorem threeWay_cut (S : Schema) : ∀ (L : List Node) (f t : Nat) (M R : List 
     simp only [fsize_cons] at ht
     by_cases hf0 : f = 0
     · subst hf0
-      have hl := lastOK_of_cut0 S (n :: ns) t M rs (by simp; omega) h hrs hv hn
+      have hl := rjoinOK_of_cut0 S (n :: ns) t M rs (by simp; omega) h hrs hv hn
       obtain ⟨X, hX⟩ := flatTail_ok hs hl
       unfold threeWay
       simp only [if_true, depthAt_zero]
@@ -798,17 +798,17 @@ theorem threeWay_cut (S : Schema) : ∀ (L : List Node) (f t : Nat) (M R : List 
       have hso := cutText_splitOk hct
       have hdf : depthAt (Node.text s m :: ns) f = 0 :=
         depthAt_nonelem_cons _ ns f (by simpa using hle) (by simp)
-      have hl : LastOK S (Node.text s' m :: rest) (depthAt (Node.text s m :: ns) t) rs := by
+      have hl : RJoinOK S (Node.text s' m :: rest) (depthAt (Node.text s m :: ns) t) rs := by
         by_cases hlt : s.length ≤ t
         · rw [splitRight_skip _ ns t ht0 (by simpa using hlt)] at hrs
           rw [depthAt_skip _ ns t (by simpa using hlt)]
           simp only [Node.size_text] at hrs ⊢
-          exact lastOK_cons _ (lastOK_of_cut0 S ns (t - s.length) rest rs (by omega) hr hrs hv' hnns)
+          exact rjoinOK_cons _ (rjoinOK_of_cut0 S ns (t - s.length) rest rs (by omega) hr hrs hv' hnns)
         · have : min s.length t = t := by omega
           rw [this] at hso
           rw [splitRight_text s m ns t ht0 (by omega) hso.2] at hrs
           simp at hrs; subst hrs
-          simp only [LastOK]
+          simp only [RJoinOK]
           exact depthAt_nonelem_cons _ ns t (by simp; omega) (by simp)
       obtain ⟨X, hX⟩ := flatTail_ok hs hl
       unfold threeWay
@@ -852,24 +852,24 @@ theorem threeWay_cut (S : Schema) : ∀ (L : List Node) (f t : Nat) (M R : List 
         simp only [Node.size_elem] at hrs
         have hdb : depthAt (Node.elem tyL aL mL kidsL :: ns) t = depthAt ns (t - (2 + fsize kidsL)) := by
           rw [depthAt_skip _ ns t (by simpa using hge)]; simp
-        have hl0 := lastOK_of_cut0 S ns (t - (2 + fsize kidsL)) rest rs (by omega) hr hrs hv' hnns
+        have hl0 := rjoinOK_of_cut0 S ns (t - (2 + fsize kidsL)) rest rs (by omega) hr hrs hv' hnns
         obtain ⟨htk, hdc, hnc⟩ := suffix_cut_facts hct (by omega) hnk
         obtain ⟨lr, hlr⟩ := twoWay_left S kidsL (f - 1) c (by omega) hct hvk hnk
         have hre : fromArray lr = kidsL :=
           twoWay_rebuild S hlr (fnormKids_of_fnorm hnk) hnc hnk
             (by rw [htk]; exact List.take_append_drop _ _)
-        obtain ⟨rj, hrj⟩ := rightJoin_ok (lastOK_cons (Node.elem tyL aL mL c) hl0)
+        obtain ⟨rj, hrj⟩ := rightJoin_ok (rjoinOK_cons (Node.elem tyL aL mL c) hl0)
         unfold threeWay
         rw [if_neg hf0, if_neg (by simp; omega)]
         simp only [hs, hda, hdb]
         cases rs with
         | flat r =>
-          simp only [LastOK] at hl0
+          simp only [RJoinOK] at hl0
           rw [hl0] at hrj ⊢
           simp [threeWay.rightJoinCheck, compatibleContent_self, hlr, hre,
             close_ok_of_valid S tyL aL mL kidsL hvc, hrj]
         | deep cR i r =>
-          obtain ⟨hne, hb0⟩ := lastOK_ne_nil hl0
+          obtain ⟨hne, hb0⟩ := rjoinOK_ne_nil hl0
           cases rest with
           | nil => exact absurd rfl hne
           | cons y ys =>
